@@ -16,6 +16,7 @@ V  seeded random token soups over the full concrete token alphabet, grammar docu
 """
 from __future__ import annotations
 
+import hashlib
 import json
 import random
 import re
@@ -29,6 +30,7 @@ from common import Outcome, Scratch, pmap, tlc
 
 PID = "C01"
 RECLIMIT = sys.getrecursionlimit()
+BATCH = 150000
 PARSE_LIMIT_S = 5.0     # a parse that takes longer is recorded as "not judged" (slow, not wrong)
 DEV_PRE = "PreParseLeftSet"
 DEV_TITLE = "HeadingTitleLost"
@@ -371,11 +373,34 @@ def check_batch(o: Outcome, docs, origin, want_model=frozenset(), predicted=None
     observables, has TLC validate the distinct tree shapes.  Returns {doc id: machine-vocabulary
     dump of the plain-mode tree} for the ids in want_model.  predicted: {doc id: as-is machine
     observation} (G), used to say whether the as-is model explains a fault."""
-    items = [(i, t, i in want_model) for i, t in enumerate(docs)]
-    results = pmap(run_docs, items)
     models = {}
     whole, whole_src = {}, {}
     slice_keys, slice_src = {}, {}
+    # bounded memory: the real parser runs over the inputs in batches; the distinct tree shapes
+    # of all batches are validated together afterwards
+    for start in range(0, len(docs), BATCH):
+        items = [(i, docs[i], i in want_model) for i in range(start, min(start + BATCH, len(docs)))]
+        results = pmap(run_docs, items)
+        collect(o, docs, origin, results, models, whole, whole_src, slice_keys, slice_src)
+        del results
+    return finish_batch(o, docs, origin, models, whole, whole_src, slice_keys, slice_src)
+
+
+PER_CLASS_CAP = 200
+_seen_cls: dict = {}
+
+
+def capped(o, cls) -> bool:
+    """True if this class already has PER_CLASS_CAP recorded cases (further ones are only counted)."""
+    n = _seen_cls.get(cls, 0) + 1
+    _seen_cls[cls] = n
+    if n > PER_CLASS_CAP:
+        o.extra.setdefault("cases_counted_but_not_listed", {})[cls] = n - PER_CLASS_CAP
+        return True
+    return False
+
+
+def collect(o, docs, origin, results, models, whole, whole_src, slice_keys, slice_src):
     sys.setrecursionlimit(20000)
     for did, mode, err, flags, key, dump in results:
         dump = json.loads(dump) if dump is not None else None
@@ -392,16 +417,18 @@ def check_batch(o: Outcome, docs, origin, want_model=frozenset(), predicted=None
                 slow["examples"].append({"origin": origin, "mode": mode, "text_len": len(text), "text_head": text[:200]})
             continue
         if err is not None:
-            o.violation({"origin": origin, "mode": mode, "text": text, "error": err},
-                        f"parse(..., {mode}) raised {err}", cls="exception:" + err.split(":")[0])
+            if not capped(o, "exception:" + err.split(":")[0]):
+                o.violation({"origin": origin, "mode": mode, "text": text, "error": err},
+                            f"parse(..., {mode}) raised {err}", cls="exception:" + err.split(":")[0])
             continue
         if flags != pt.CLEAN_FLAGS:
             case = {"origin": origin, "mode": mode, "text": text, "flags": flags}
             only_pre = {k: v for k, v in flags.items() if v != pt.CLEAN_FLAGS[k]} == {"pre_parse": True}
             why = f"parser state left behind after parse(): {flags}"
             if only_pre:
-                o.classify(case, why, [DEV_PRE], cls="pre_parse-left-set")
-            else:
+                if not capped(o, "pre_parse-left-set"):
+                    o.classify(case, why, [DEV_PRE], cls="pre_parse-left-set")
+            elif not capped(o, "state-left-behind"):
                 o.violation(case, why, cls="state-left-behind")
         if dump is None:
             continue
@@ -415,13 +442,16 @@ def check_batch(o: Outcome, docs, origin, want_model=frozenset(), predicted=None
                 if k2 not in slice_keys:
                     slice_keys[k2] = (pk, sl)
                     slice_src[k2] = (text, mode)
+
+
+def finish_batch(o, docs, origin, models, whole, whole_src, slice_keys, slice_src):
     o.traces += len(docs)
     # whole trees
     keys = list(whole)
     bad = validate_parallel(o, [{"pk": "NONE", "t": whole[k]} for k in keys], "Trace_WikiTree")
     for k in keys:
         if len(pt.kinds_in(whole[k])) >= 2:
-            o.shape(k)
+            o.shape(hashlib.sha1(k.encode()).hexdigest()[:16])
     for j, faults in bad.items():
         text, mode = whole_src[keys[j]]
         report_faults(o, origin, text, mode, faults, whole[keys[j]])
@@ -445,6 +475,8 @@ def report_faults(o, origin, text, mode, faults, dump):
     case = {"origin": origin, "mode": mode, "text": text[:3000], "faults": faults,
             "tree": json.dumps(dump)[:1500]}
     why = f"tree returned by parse(..., {mode}) is not well-formed: {', '.join(faults)}"
+    if capped(o, "wf:" + ",".join(faults)):
+        return
     if all(f in FAULT_DEVIATION for f in faults):
         o.classify(case, why, sorted({FAULT_DEVIATION[f] for f in faults}), cls="wf:" + ",".join(faults))
     else:
@@ -545,6 +577,7 @@ def run_demos(o: Outcome):
 
 
 def run(tier: str) -> int:
+    _seen_cls.clear()
     o = Outcome(PID, tier)
     o.rule = ("M/G: every chunk sequence reachable in the universes of Gen_Parser is one case (parsed in its primary and "
               "alternative spellings); V: every generated input (token soup over the full concrete alphabet, grammar document, page mutation, "
